@@ -3,12 +3,14 @@ package props
 
 import (
 	"verif/mon"
+	"verif/props/c01"
 	"verif/props/c03"
 )
 
 // Registry maps property ids to spec constructors.
 func Registry() map[string]func() *mon.Spec {
 	return map[string]func() *mon.Spec{
+		"C01": c01.Spec,
 		"C03": c03.Spec,
 	}
 }
